@@ -77,6 +77,54 @@ def _strip_none(x):
     return x
 
 
+def fold(vs, records, wanted=None):
+    """Fold TRACE records into verdicts.  Several records may exist for one (trace, event): the
+    specification may leave a choice (several successors) - the event passes if one of them
+    matches the log with every predicate true; records without "m"/"bo" content from the state
+    CONSTRAINT carry state predicates only."""
+    per = {}
+    for rec in records:
+        per.setdefault((rec["t"], rec["l"]), []).append(rec)
+    for v in vs:
+        tno = v.tid - vs[0].tid + 1
+        n = len(v.trace["events"])
+        for l in range(1, n + 1):
+            recs = per.get((tno, l))
+            if not recs:
+                break
+            if any(r.get("skip") for r in recs):
+                v.truncated = True
+                v.trace = dict(v.trace, events=v.trace["events"][: l - 1])
+                break
+            # records of the state CONSTRAINT (st) carry state predicates only; the others are
+            # one per successor the specification generated for this event
+            succ = [r for r in recs if not r.get("st")]
+            state = [r for r in recs if r.get("st")]
+            matched = [r for r in succ if not (r.get("bo") or [])]
+
+            def preds(rs):
+                return sorted({x for r in rs for x in (r.get("bi") or []) if wanted is None or x in wanted})
+
+            if matched:
+                clean = [r for r in matched if not preds([r])]
+                bad_state = preds(state) if len(succ) == 1 else []
+                if clean and not bad_state:
+                    v.consumed = l
+                    continue
+                v.bad_inv = bad_state or preds(matched)
+                v.at = l
+            elif succ:
+                r0 = succ[0]
+                v.bad_obs = list(r0.get("bo") or []) or None
+                v.model = r0.get("m")
+                v.at = l
+            else:
+                # only a state record: the action constraint was not evaluated (should not happen)
+                v.consumed = l
+                continue
+            break
+
+
 def validate(module, cfg, traces, batch=1500, timeout=3600, extra_env=None, wanted=None):
     """Validate all traces; returns (verdicts, tlc_stats)."""
     verdicts = []
@@ -101,25 +149,7 @@ def validate(module, cfg, traces, batch=1500, timeout=3600, extra_env=None, want
         stats["runs"] += 1
         stats["wall"] += res.wall
         vs = [TraceVerdict(start + i, t) for i, t in enumerate(chunk)]
-        for rec in res.printed.get("TRACE", []):
-            v = vs[rec["t"] - 1]
-            if v.bad_obs or v.bad_inv or v.truncated:
-                continue
-            if rec.get("skip"):
-                # the specification does not describe this input: the rest of the trace is not judged
-                v.truncated = True
-                v.consumed = min(v.consumed, rec["l"] - 1)
-                v.trace = dict(v.trace, events=v.trace["events"][: rec["l"] - 1])
-                continue
-            bo = rec.get("bo") or []
-            bi = [x for x in (rec.get("bi") or []) if wanted is None or x in wanted]
-            if bo or bi:
-                v.bad_obs = list(bo) or None
-                v.bad_inv = list(bi) or None
-                v.model = rec.get("m")
-                v.at = rec["l"]
-            else:
-                v.consumed = max(v.consumed, rec["l"])
+        fold(vs, res.printed.get("TRACE", []), wanted)
         verdicts.extend(vs)
         import shutil
 
